@@ -112,7 +112,7 @@ Fixpoint box_go (t : ty) (inner value : val) : val :=
   | TOpt t' =>
     match inner with
     | VSome i => box_go t' i value
-    | VNil => value
+    | VNil => inner                       (* NOTE in the Go code: nested nil will be unboxed! *)
     | _ => box_go t' inner (VSome value)
     end
   | _ => value
